@@ -427,6 +427,37 @@ func checkC17(c *Ctx, r *Report) {
 						return ok && kindParams[fi.Pkg.TypesInfo.Uses[id]]
 					})
 				}
+				// `kind != nil` is the one harmless test: with a nil kind every edge to the target has been
+				// removed already, so the loop cannot find one - running it for non-nil kinds only changes nothing
+				kindNonNil := func(e ast.Expr) bool {
+					for {
+						pe, ok := e.(*ast.ParenExpr)
+						if !ok {
+							break
+						}
+						e = pe.X
+					}
+					be, ok := e.(*ast.BinaryExpr)
+					if !ok || be.Op != token.NEQ {
+						return false
+					}
+					isNil := func(x ast.Expr) bool { id, ok := x.(*ast.Ident); return ok && id.Name == "nil" }
+					isKind := func(x ast.Expr) bool {
+						id, ok := x.(*ast.Ident)
+						return ok && kindParams[fi.Pkg.TypesInfo.Uses[id]]
+					}
+					return (isKind(be.X) && isNil(be.Y)) || (isNil(be.X) && isKind(be.Y))
+				}
+				var harmfulConjunct func(e ast.Expr) bool
+				harmfulConjunct = func(e ast.Expr) bool {
+					if pe, ok := e.(*ast.ParenExpr); ok {
+						return harmfulConjunct(pe.X)
+					}
+					if be, ok := e.(*ast.BinaryExpr); ok && be.Op == token.LAND {
+						return harmfulConjunct(be.X) || harmfulConjunct(be.Y)
+					}
+					return mentionsKind(e) && !kindNonNil(e)
+				}
 				var stack []ast.Node
 				ast.Inspect(rf.Decl, func(n ast.Node) bool {
 					if n == nil {
@@ -448,12 +479,12 @@ func checkC17(c *Ctx, r *Report) {
 						return true
 					}
 					for _, anc := range stack[:len(stack)-1] {
-						if is, ok := anc.(*ast.IfStmt); ok && mentionsKind(is.Cond) && containsNode(is.Body, func(m ast.Node) bool { return m == ast.Node(rs) }) {
+						if is, ok := anc.(*ast.IfStmt); ok && mentionsKind(is.Cond) && !kindNonNil(is.Cond) && containsNode(is.Body, func(m ast.Node) bool { return m == ast.Node(rs) }) {
 							v2 = fmt.Sprintf("%s: the remaining-edge test runs only under a condition on the kind argument (%s): for the other kind arguments the adjacency of a pair that is still linked is dropped", w.pos(is.Pos()), types.ExprString(is.Cond))
 						}
 					}
 					ast.Inspect(rs.Body, func(m ast.Node) bool {
-						if is, ok := m.(*ast.IfStmt); ok && mentionsKind(is.Cond) {
+						if is, ok := m.(*ast.IfStmt); ok && harmfulConjunct(is.Cond) {
 							v2 = fmt.Sprintf("%s: the remaining-edge test is conditioned on the kind argument (%s): after RemoveEdge(from, to, &kind) an edge of another kind no longer keeps deps[from][to] / revDeps[to][from], so it stays among the source's outgoing edges but disappears from the target's incoming edges and from Parents()", w.pos(is.Pos()), types.ExprString(is.Cond))
 						}
 						return true
